@@ -2029,8 +2029,6 @@ func (s *SelectStatement) rewriteWithoutTimeDimensions() string {
 				return &BooleanLiteral{Val: true}
 			}
 			return n
-		case *Call:
-			return &BooleanLiteral{Val: true}
 		default:
 			return n
 		}
